@@ -26,7 +26,7 @@ from native import gens         # noqa: E402
 
 
 def resolve(qualname):
-    parts = qualname.split('.')
+    parts = qualname.split('#')[0].split('.')
     for cut in range(len(parts) - 1, 0, -1):
         try:
             mod = importlib.import_module('.'.join(parts[:cut]))
@@ -103,7 +103,7 @@ def check_case(c, fn, args, ev, label_filter=None):
     if expected_exc:
         return dict(status='fail', failed=['xpost:returns-only-if-not:%s' % expected_exc[0]])
     ns = ev.namespace(args, old, result, pre_ids)
-    for label, clause in c.labelled(c.ensures, 'post'):
+    for label, clause in c.labelled(list(c.ensures) + list(c.ghost.get('native_ensures', [])), 'post'):
         if label_filter and label_filter not in label:
             continue
         try:
